@@ -3,6 +3,7 @@
 cd "$(dirname "$0")/.." || exit 3
 tier="${1:-quick}"
 rc=0
+python3-vt tools/engine_selftest.py | tail -1 || rc=1
 for id in $(python3 -c "import json; print(' '.join(c['property_id'] for c in json.load(open('MANIFEST.json'))['checks']))"); do
   out=$(./check "$id" --tier "$tier" 2>&1); code=$?
   echo "$out" | tail -1
